@@ -153,12 +153,15 @@ def gen_solution(rng, kinds=None, hostile=True):
     if rng.random() < 0.7:
         meta["processor_name"] = rng.choice(["Intel Core i7-8550U CPU @ 1.80GHz", "AMD <Ryzen> & \"co\" 'x'", "x",
                                              "M1 üß中", "a  b"])
-    dkind = rng.choice(["default", "none", "explicit", "micro", "cleared"])
+    dkind = rng.choice(["default", "none", "explicit", "micro", "cleared", "midnight"])
     if dkind == "none":
         meta["date"] = None
     elif dkind == "explicit":
         meta["date"] = datetime.datetime(rng.randint(1990, 2090), rng.randint(1, 12), rng.randint(1, 28),
                                          rng.randint(0, 23), rng.randint(0, 59), rng.randint(0, 59))
+    elif dkind == "midnight":
+        # a date without a time of day (e.g. parsed from "2020-11-17")
+        meta["date"] = datetime.datetime(rng.randint(1990, 2090), rng.randint(1, 12), rng.randint(1, 28))
     elif dkind == "micro":
         meta["date"] = datetime.datetime(2021, 3, 4, 5, 6, 7, rng.randint(1, 999999))
     sol = Solution(sid, pps, **meta)
